@@ -55,19 +55,19 @@ Proof.
 Qed.
 
 (* the loop of StepExpansion.__init__ run in binary64 on the node NUMBERS (the minimal repair) returns exactly the
-   node-number partition -- every N <= 40, every n_steps <= N *)
-Theorem step_nodes_float_exact_bounded : forall N n, (2 <= N <= 40)%nat -> (1 <= n <= N)%nat ->
+   node-number partition -- every N <= 32, every n_steps <= N *)
+Theorem step_nodes_float_exact_bounded : forall N n, (2 <= N <= 32)%nat -> (1 <= n <= N)%nat ->
   step_indices_nodes N n = step_indices_ideal N n.
 Proof. apply all_Nn_ok_spec. vm_compute. reflexivity. Qed.
 
 (* today's loop on node COORDINATES is exact whenever the coordinates themselves are: on every grid x0 + k*h of the
-   dyadic family (36 offset/spacing pairs), every N <= 20 and every n_steps <= N (dividing N-1 or not) *)
+   dyadic family (36 offset/spacing pairs), every N <= 16 and every n_steps <= N (dividing N-1 or not) *)
 Theorem step_float_exact_on_dyadic_grids_bounded : forall x0 h N n, In (x0, h) dyadic_family ->
-  (2 <= N <= 20)%nat -> (1 <= n <= N)%nat ->
+  (2 <= N <= 16)%nat -> (1 <= n <= N)%nat ->
   step_indices_F (fgrid x0 h N) n = step_indices_ideal N n.
 Proof.
   intros x0 h N n Hin. revert N n.
-  assert (H : forallb (fun p => all_Nn_ok 20 (fun N n => step_indices_F (fgrid (fst p) (snd p) N) n)) dyadic_family = true)
+  assert (H : forallb (fun p => all_Nn_ok 16 (fun N n => step_indices_F (fgrid (fst p) (snd p) N) n)) dyadic_family = true)
     by (vm_compute; reflexivity).
   rewrite forallb_forall in H. specialize (H (x0, h) Hin). cbn [fst snd] in H. apply all_Nn_ok_spec. exact H.
 Qed.
